@@ -147,7 +147,7 @@ def stored_length_encoding(ctx, P):
     value back: in every arm of to_writer the length prefix written derives from the stored field, never from a fresh
     SubpacketLength::encode()."""
     for path, fld in (('<packet::user_attribute::UserAttribute as ser::Serialize>::to_writer', r'field:UserAttribute::(Image|Unknown)\.subpacket_len$'),
-                      ('<packet::signature::subpacket::Subpacket as ser::Serialize>::to_writer', r'field:Subpacket\.len$')):
+                      ('packet::signature::ser::<impl ser::Serialize for packet::signature::subpacket::Subpacket>::to_writer', r'field:Subpacket\.len$')):
         b = ctx.body(path)
         if b is None:
             continue
@@ -156,8 +156,8 @@ def stored_length_encoding(ctx, P):
         fresh = b.calls(r'SubpacketLength::encode$')
         oks = ok_exit_blocks(b)
         every, _ = must_pass(b, oks, [i for i, t in lw]) if lw else (False, None)
-        ctx.check('%s:S05-7:stored-length-encoding:%s' % (P, path.split(' as ')[0].split('::')[-1]), 'origin',
-                  'the length prefix written by %s is the stored (original) encoding on every path, not a re-encoded one' % path.split(' as ')[0].split('::')[-1],
+        ctx.check('%s:S05-7:stored-length-encoding:%s' % (P, ('UserAttribute' if 'UserAttribute' in path else 'Subpacket')), 'origin',
+                  'the length prefix written by %s is the stored (original) encoding on every path, not a re-encoded one' % ('UserAttribute' if 'UserAttribute' in path else 'Subpacket'),
                   good and not fresh and every, function=path, missing='SubpacketLength::encode() used in the writer' if fresh else None)
 
 
